@@ -19,13 +19,15 @@ EXPLANATION = (
     "wrong keys, dropped synonyms and wrong flag plumbing are caught; byte-level escaping is not.")
 BOUNDS = dict(records="<= 3", synonyms_per_side="<= 2", strings="unbounded, full z3 alphabet")
 OUTSIDE = ["byte-level JSON escaping and file encoding (the replay uses real files, the symbolic run an in-memory table)",
-           "write_shacl + from_shacl (rdflib Turtle parser and SPARQL engine)", "csv quoting of write_tsv",
+           "from_shacl itself (rdflib Turtle parser and SPARQL engine): write_shacl is checked against the Turtle document the reader "
+           "needs, token by token, and the real round trip is exercised only on replayed path witnesses", "csv quoting of write_tsv",
            "JSON-LD prefixes that are empty or start with '@' (excluded by the quantifier)"]
 ASSUMPTIONS = ["json round-trips JSON values unchanged; dict keys stay distinct", "csv stub: rows of cells", "pydantic BaseModel stub",
                "pytrie contract stub", "strict precondition"]
 
 SHAPES = [
     ("epm", [[1, 1], [0, 0]], False, Q), ("jsonld", [[1, 1], [0, 0]], False, Q), ("tsv", [[1, 0], [0, 0]], False, Q),
+    ("shacl", [[1, 0], [0, 0]], False, Q, dict(budget=900, shard=5)), ("shacl", [[1, 0], [1, 0], [0, 0]], False, T, dict(budget=1800, shard=6)),
     ("epm", [[2, 1], [0, 2]], False, T, dict(budget=1800, shard=6)), ("epm", [[0, 0]] * 3, False, T, dict(budget=1800, shard=6)),
     ("jsonld", [[2, 0], [1, 1]], False, T, dict(budget=1800, shard=6)), ("tsv", [[0, 0]] * 3, False, T, dict(budget=1200, shard=5)),
 ]
@@ -34,7 +36,7 @@ PRETTY_SAMPLES = True   # path witnesses replayed through real files should be p
 
 
 def jobs(tier):
-    return shape_jobs(SHAPES, tier, {"epm": ["ok"], "jsonld": ["ok"], "tsv": ["ok"]})
+    return shape_jobs(SHAPES, tier, {"epm": ["ok"], "jsonld": ["ok"], "tsv": ["ok"], "shacl": ["ok"]})
 
 
 def location(eng, name):
@@ -109,4 +111,81 @@ def build(job):
                    "the TSV read back as a prefix map is not the canonical prefix map")
         return "ok"
 
-    return dict(epm=epm, jsonld=jsonld, tsv=tsv)[fn]
+    def shacl(eng):
+        """Symbolic run: the text handed to the file is compared, token by token, with the Turtle document the
+        SHACL reader needs (one sh:declare entry per record in record order, fields as Turtle string literals, i.e.
+        with backslashes escaped); whitespace between tokens is not significant.  Replay: the real rdflib round trip."""
+        api = eng.mods.api
+        recs, conv = setup(eng, True)
+        syn = eng.flag("include_synonyms")
+        path = location(eng, "shapes.ttl")
+        if not eng.mods.symbolic:
+            vals = [v for r in recs for v in [*r.all_p, *r.all_u, r.pattern] if v is not None]
+            if any((not v.isprintable()) or any(ch in v for ch in '"<>') for v in vals) or any(not v for r in recs for v in [*r.all_p, *r.all_u]):
+                return "<precondition-not-met: outside the SHACL alphabet of the quantifier>"
+            api.write_shacl(conv, path, include_synonyms=syn)
+            back = api.load_shacl(path, strict=False) if syn else api.load_shacl(path)
+            want = [(r.prefix, r.uri_prefix) for r in recs] + ([(s, r.uri_prefix) for r in recs for s in r.psyn] if syn else [])
+            got = list(back.prefix_map.items())
+            eng.expect(len(got) == len(want) and all(any(k == k2 and v == v2 for k2, v2 in got) for k, v in want),
+                       "the SHACL file does not read back to the same prefix map")
+            wantp = {pfx: r.pattern for r in recs if r.pattern for pfx in [r.prefix] + (list(r.psyn) if syn else [])}
+            eng.expect(dict(back.pattern_map) == wantp, "the SHACL file does not read back to the same patterns")
+            return "ok"
+        from .. import stubs
+        from ..core import SymStr, flatten, z3str_to_py
+        # the quantifier's SHACL alphabet: printable (here: ASCII) characters without double quote and angle brackets
+        alpha = z3.Union(z3.Range(" ", "!"), z3.Range("#", ";"), z3.Re("="), z3.Range("?", "~"))
+        for r in recs:
+            eng.assume(And([z3.InRe(_s(v), z3.Plus(alpha)) for v in [*r.all_p, *r.all_u]],
+                           [z3.InRe(_s(r.pattern), z3.Star(alpha))] if r.pattern is not None else []))
+        api.write_shacl(conv, path, include_synonyms=syn)
+        (kind, text), = stubs.FS[path]
+        esc_f = lambda x: SymStr(_s(x)).replace("\\", "\\\\")       # Turtle string literal: backslashes doubled
+        for r in recs:
+            for v in [*r.all_p, *r.all_u] + ([r.pattern] if r.pattern is not None else []):
+                e = _s(esc_f(v))
+                eng.assume(z3.If(z3.Contains(_s(v), z3.StringVal("\\")), z3.Length(e) > z3.Length(_s(v)), e == _s(v)))
+        entries = []
+        for rec in conv.records:            # record order of the converter
+            r = [x for x in recs if sym_eq(x.prefix, rec.prefix)][0]
+            for pfx in [r.prefix] + (list(rec.prefix_synonyms) if syn else []):
+                toks = ['[ sh:prefix "', esc_f(pfx), '" ; sh:namespace "', esc_f(r.uri_prefix), '"^^xsd:anyURI ']
+                # an empty pattern counts as no pattern
+                if r.pattern is not None and not sym_eq(r.pattern, ""):
+                    toks += ['; sh:pattern "', esc_f(r.pattern), '"']
+                toks += [" ]"]
+                entries.append(toks)
+        want = ["@prefix sh: <http://www.w3.org/ns/shacl#> . @prefix xsd: <http://www.w3.org/2001/XMLSchema#> . [ sh:declare "]
+        for k, toks in enumerate(entries):
+            want += ([" , "] if k else []) + toks
+        want += [" ] ."]
+
+        def norm(tokens):
+            out = []
+            for t in tokens:
+                if isinstance(t, str):
+                    if out and isinstance(out[-1], str):
+                        out[-1] += t
+                    else:
+                        out.append(t)
+                else:
+                    out.append(t)
+            return [" ".join(t.split()) if isinstance(t, str) else t for t in out]
+        got = []
+        for p in flatten(eng.norm(_s(text))):
+            got.append(z3str_to_py(p) if z3.is_string_value(p) else p)
+        got, want = norm(got), norm([t if isinstance(t, str) else _s(t) for t in want])
+        same = len(got) == len(want)
+        if same:
+            for g, w in zip(got, want):
+                if isinstance(g, str) or isinstance(w, str):
+                    if not (isinstance(g, str) and isinstance(w, str) and g.replace(" ", "") == w.replace(" ", "")):
+                        same = False
+                        break
+                elif not eng.check_holds(g == w, "write_shacl does not write a field as the Turtle string literal of the right record's value"):
+                    return "ok"
+        eng.expect(same, "write_shacl does not produce one well-formed sh:declare entry per record (and synonym) in record order")
+        return "ok"
+
+    return dict(epm=epm, jsonld=jsonld, tsv=tsv, shacl=shacl)[fn]
